@@ -11,7 +11,13 @@ C_MHZ_M = 299.8
 
 _ax = [(1, 0, 0), (-1, 0, 0), (0, 1, 0), (0, -1, 0), (0, 0, 1), (0, 0, -1)]
 _dg = [(a, b, c) for a in (1, -1) for b in (1, -1) for c in (1, -1)]
-DIRS = [np.array(v, float) / np.linalg.norm(v) for v in _ax + _dg]
+# face diagonals (wires in the coordinate planes, e.g. a sloping wire with dx == 0 exactly) and steep directions
+# (18 and 25 degrees off the vertical); appended so that the indices of the axes and space diagonals stay
+_fd = [(0, a, b) for a in (1, -1) for b in (1, -1)] + [(a, 0, b) for a in (1, -1) for b in (1, -1)] + \
+      [(a, b, 0) for a in (1, -1) for b in (1, -1)]
+_st = [(a, 0, 3 * c) for a in (1, -1) for c in (1, -1)] + [(0, a, 3 * c) for a in (1, -1) for c in (1, -1)] + \
+      [(a, b, 3 * c) for a in (1, -1) for b in (1, -1) for c in (1, -1)]
+DIRS = [np.array(v, float) / np.linalg.norm(v) for v in _ax + _dg + _fd + _st]
 UP = [i for i, d in enumerate(DIRS) if d[2] > 0.5]          # +z axis and the four upper diagonals
 DOWN = [i for i, d in enumerate(DIRS) if d[2] < -0.5]
 HORIZ_OR_UP = [i for i, d in enumerate(DIRS) if d[2] >= -1e-9]
@@ -36,8 +42,15 @@ def frequency(draw):
 
 
 def _rot(draw, zonly):
-    if draw(st.integers(0, 9)) == 0:
+    u = draw(st.integers(0, 9))
+    if u == 0:
         return np.eye(3)
+    if u == 1 or (u == 2 and zonly):
+        # an exact quarter, half or three-quarter turn about z (entries exactly 0 and +-1: wires stay exactly in
+        # their coordinate planes)
+        k = draw(st.integers(1, 3))
+        c, s_ = [(0.0, 1.0), (-1.0, 0.0), (0.0, -1.0)][k - 1]
+        return np.array([[c, -s_, 0.0], [s_, c, 0.0], [0.0, 0.0, 1.0]])
     az = draw(st.floats(0, 360))
     if zonly:
         return rgeo.rot_matrix((0, 0, az))
